@@ -11,7 +11,7 @@ import LolHtml.Model.Utf8
 
 namespace LolHtml.Enc
 
-/-- An encoding as `TextDecoder` sees it: a codec and whether it `== UTF_8` (text_decoder.rs:145). -/
+/-- An encoding as `TextDecoder` sees it: a codec and whether it `== UTF_8` (text_decoder.rs:163). -/
 structure Encoding where
   codec : Codec
   utf8 : Bool
@@ -24,13 +24,16 @@ structure Chunk where
   stop : Nat
   deriving DecidableEq, Repr
 
-/-- `TextDecoder` state: `pending_text_streaming_decoder`, `pending_source_location_bytes_start`
-(text_decoder.rs:8-13; `text_buffer` has no observable content, `encoding` is fixed per text node). -/
+/-- `TextDecoder` state (text_decoder.rs:8-17): `pending_text_streaming_decoder`,
+`pending_source_location_bytes_start` (start of the bytes fed but not yet reported in any chunk),
+`pending_source_location_bytes_end` (end of the bytes fed so far).
+(`text_buffer` has no observable content, `encoding` is fixed per text node.) -/
 structure TD (c : Codec) where
   pending : Option c.σ
   pendingStart : Nat
+  pendingEnd : Nat
 
-def TD.new (c : Codec) : TD c := ⟨none, 0⟩
+def TD.new (c : Codec) : TD c := ⟨none, 0, 0⟩
 
 /-- the decoder `feed_text` continues with: the pending one, or a new one
 (`get_or_insert_with(|| encoding.new_decoder_without_bom_handling())`, text_decoder.rs:84-87) -/
@@ -44,85 +47,93 @@ def asciiValidUpTo : Bytes → Nat
   | [] => 0
   | b :: bs => if b < 128 then 1 + asciiValidUpTo bs else 0
 
-/-- `split_utf8_start` (text_decoder.rs:132-165): `(utf8_text, utf8_text.len(), rest)` or `none` when
+/-- `split_utf8_start` (text_decoder.rs:153-184): `(utf8_text, utf8_text.len(), rest)` or `none` when
 the fast path is not available. -/
 def splitUtf8Start (utf8 : Bool) (cap : Nat) (pending : Bool) (raw : Bytes) :
     Option (List Char × Nat × Bytes) :=
-  -- :138 Can't use the fast path if the decoder may have buffered some bytes
+  -- :159 Can't use the fast path if the decoder may have buffered some bytes
   if pending then none
   else
-    -- :142-148 text_or_len
+    -- :163-168 text_or_len
     let sc := Utf8.scan raw
-    if utf8 && sc.fin = .done then some (sc.chars, raw.length, [])      -- :151 Ok(utf8_text)
+    if utf8 && sc.fin = .done then some (sc.chars, raw.length, [])      -- :171 Ok(utf8_text)
     else
       let validUpTo := if utf8 then sc.validUpTo else asciiValidUpTo raw
-      -- :156
+      -- :176
       if validUpTo != raw.length && validUpTo < cap then none
-      -- :160 split_at_checked(valid_up_to)?
+      -- :180 split_at_checked(valid_up_to)?
       else if validUpTo > raw.length then none
       else
-        -- :161 from_utf8(text).ok()?
+        -- :181 from_utf8(text).ok()?
         match Utf8.decodeValid (raw.take validUpTo) with
         | none => none
         | some text => some (text, validUpTo, raw.drop validUpTo)
 
-/-- The slow-path `loop` of `feed_text` (text_decoder.rs:91-128). Returns the decoder state, the final
-`next_source_location_bytes_start` and the handler calls; `none` = fuel exhausted
-(`feedLoop_fuel`: never, for a lawful codec and `cap ≥ 4`). -/
+/-- The slow-path `loop` of `feed_text` (text_decoder.rs:102-140). `pos` =
+`next_source_location_bytes_start`, `unrep` = `unreported_bytes_start`. Returns the decoder state, the
+final `next_source_location_bytes_start`, the final `unreported_bytes_start` and the handler calls;
+`none` = fuel exhausted (`feedLoop_total`: never, for a lawful codec and `cap ≥ 4`). -/
 def feedLoop (c : Codec) (pol : Policy c) (cap : Nat) (last : Bool) :
-    Nat → c.σ → Bytes → Nat → Option (c.σ × Nat × List Chunk)
-  | 0, _, _, _ => none
-  | fuel + 1, s, raw, pos =>
-    -- :93-94
+    Nat → c.σ → Bytes → Nat → Nat → Option (c.σ × Nat × Nat × List Chunk)
+  | 0, _, _, _, _ => none
+  | fuel + 1, s, raw, pos, unrep =>
+    -- :103-105
     let r := decodeToStr c pol s raw cap last
-    -- :96-99
+    -- :107-108
     let finished := r.status = .inputEmpty
-    let stop := pos + r.read
-    -- :101-113  `written > 0 || last_in_text_node`; really_last = last && finished
+    let next := pos + r.read
+    -- :110-128  `written > 0 || last_in_text_node`; location = from_start_len(unreported,
+    -- next.saturating_sub(unreported)) (`-` on Nat is saturating); really_last = last && finished
+    let emits : Bool := !r.out.isEmpty || last
     let emit : List Chunk :=
-      if !r.out.isEmpty || last then [⟨r.out, last && decide finished, pos, stop⟩] else []
-    -- :115-122
-    if finished then some (r.st, stop, emit)
+      if emits then [⟨r.out, last && decide finished, unrep, unrep + (next - unrep)⟩] else []
+    -- :115 unreported_bytes_start = next_source_location_bytes_start
+    let unrep' := if emits then next else unrep
+    -- :130-138
+    if finished then some (r.st, next, unrep', emit)
     else
-      -- :123 raw_input.get(read..).unwrap_or_default()
-      match feedLoop c pol cap last fuel r.st (raw.drop r.read) stop with
+      -- :139 raw_input.get(read..).unwrap_or_default()
+      match feedLoop c pol cap last fuel r.st (raw.drop r.read) next unrep' with
       | none => none
-      | some (s', e, cs) => some (s', e, emit ++ cs)
+      | some (s', e, u, cs) => some (s', e, u, emit ++ cs)
 
 def feedFuel (raw : Bytes) : Nat := 2 * raw.length + 3
 
-/-- The slow path of `feed_text` (text_decoder.rs:80-128) on what the fast path left (`rest`, at source
-offset `pos`), `pre` = the fast-path chunk if any. -/
+/-- The slow path of `feed_text` (text_decoder.rs:93-140) on what the fast path left (`rest`, at source
+offset `pos`, unreported bytes starting at `unrep`), `pre` = the fast-path chunk if any. -/
 def feedSlow (e : Encoding) (pol : Policy e.codec) (cap : Nat) (td : TD e.codec) (last : Bool)
-    (pre : List Chunk) (pos : Nat) (rest : Bytes) : Option (TD e.codec × List Chunk) :=
-  -- :84-87 get_or_insert_with(new_decoder_without_bom_handling) = `td.cur`
-  match feedLoop e.codec pol cap last (feedFuel rest) td.cur rest pos with
+    (pre : List Chunk) (pos unrep : Nat) (rest : Bytes) : Option (TD e.codec × List Chunk) :=
+  -- :97-99 get_or_insert_with(new_decoder_without_bom_handling) = `td.cur`
+  match feedLoop e.codec pol cap last (feedFuel rest) td.cur rest pos unrep with
   | none => none
-  | some (s', stop, cs) =>
-    -- :116-120
-    some (if last then ⟨none, td.pendingStart⟩ else ⟨some s', stop⟩, pre ++ cs)
+  | some (s', next, unrep', cs) =>
+    -- :130-136
+    some (if last then ⟨none, td.pendingStart, td.pendingEnd⟩ else ⟨some s', unrep', next⟩, pre ++ cs)
 
-/-- `feed_text` (text_decoder.rs:53-129). `fast = false` is the same code with the fast path
-(`split_utf8_start`, :64-78) switched off, used only to state `C13_fastpath`. -/
+/-- `feed_text` (text_decoder.rs:58-141). `fast = false` is the same code with the fast path
+(`split_utf8_start`, :76-91) switched off, used only to state `C13_fastpath`. -/
 def feedTextWith (fast : Bool) (e : Encoding) (pol : Policy e.codec) (cap : Nat) (td : TD e.codec)
     (start : Nat) (raw : Bytes) (last : Bool) : Option (TD e.codec × List Chunk) :=
-  -- :64
+  -- :66-72 unreported_bytes_start
+  let unrep := if td.pending.isSome then td.pendingStart else start
+  -- :76
   match (if fast then splitUtf8Start e.utf8 cap td.pending.isSome raw else none) with
   | some (text, n, rest) =>
-    -- :66-72
+    -- :77-83 (next = start + n; unreported = next)
     let reallyLast := last && rest.isEmpty
     let c0 : Chunk := ⟨text, reallyLast, start, start + n⟩
-    -- :74-77
+    -- :87-90
     if reallyLast then some (td, [c0])
-    else feedSlow e pol cap td last [c0] (start + n) rest
-  | none => feedSlow e pol cap td last [] start raw
+    else feedSlow e pol cap td last [c0] (start + n) (start + n) rest
+  | none => feedSlow e pol cap td last [] start unrep raw
 
 abbrev feedText := feedTextWith true
 
-/-- `flush_pending` (text_decoder.rs:38-50). -/
+/-- `flush_pending` (text_decoder.rs:43-55): an empty span located at
+`pending_source_location_bytes_end`. -/
 def flushPendingWith (fast : Bool) (e : Encoding) (pol : Policy e.codec) (cap : Nat) (td : TD e.codec) :
     Option (TD e.codec × List Chunk) :=
-  if td.pending.isSome then feedTextWith fast e pol cap td td.pendingStart [] true
+  if td.pending.isSome then feedTextWith fast e pol cap td td.pendingEnd [] true
   else some (td, [])
 
 abbrev flushPending := flushPendingWith true
